@@ -1,4 +1,5 @@
 mod emitproj;
+mod gram;
 mod project;
 mod render;
 mod run;
@@ -32,6 +33,7 @@ fn main() {
     match cmd {
         "replay" => replay(&args),
         "mutate" => mutate(&args),
+        "syntax" => syntax(&args),
         "buildtree" => {
             // pyxis::build on a prepared directory tree; prints the outcome and the full error chain
             let ind = arg(&args, "--in-dir").expect("--in-dir");
@@ -288,6 +290,101 @@ fn mutate(args: &[String]) {
             serde_json::to_writer(&mut out, &obs).unwrap();
             out.write_all(b"\n").unwrap();
         }
+    }
+    out.flush().unwrap();
+}
+
+
+/// C18: print each abstract module K times with different trivia / spellings, parse it back and
+/// compare with the expected grammar::Module; then four ill-formed variants that must be rejected
+/// with a position inside the text.
+fn syntax(args: &[String]) {
+    use rand::SeedableRng;
+    let inp = arg(args, "--in").expect("--in");
+    let outp = arg(args, "--out").expect("--out");
+    let k: u64 = arg(args, "--n").and_then(|s| s.parse().ok()).unwrap_or(4);
+    let seed: u64 = arg(args, "--seed").and_then(|s| s.parse().ok()).unwrap_or(1);
+    let mut out = BufWriter::new(std::fs::File::create(&outp).unwrap());
+    let reader = std::io::BufReader::new(std::fs::File::open(inp).unwrap());
+    for line in reader.lines() {
+        let line = line.unwrap();
+        if line.trim().is_empty() {
+            continue;
+        }
+        let case: Value = serde_json::from_str(&line).unwrap();
+        let id = case["id"].as_i64().unwrap_or(0);
+        let m = &case["gmod"];
+        let expected = gram::to_grammar(m);
+        let mut rec = serde_json::json!({"id": id, "prints": 0, "mismatch": [], "illformed_accepted": [], "bad_position": [], "panic": []});
+        for j in 0..k {
+            let mut rng = rand::rngs::StdRng::seed_from_u64(seed.wrapping_mul(1_000_003).wrapping_add(id as u64 * 131 + j));
+            let (text, toks) = gram::print(m, &mut rng);
+            rec["prints"] = serde_json::json!(j + 1);
+            let r = std::panic::catch_unwind(|| pyxis::parser::parse_str(&text));
+            match r {
+                Err(_) => rec["panic"].as_array_mut().unwrap().push(serde_json::json!({"text": text})),
+                Ok(Err(e)) => rec["mismatch"].as_array_mut().unwrap().push(
+                    serde_json::json!({"kind": "rejected", "error": e.to_string(), "at": format!("{}:{}", e.span().start().line, e.span().start().column + 1), "text": text})),
+                Ok(Ok(got)) => {
+                    if got != expected {
+                        let (a, b) = (format!("{got:?}"), format!("{expected:?}"));
+                        let pos = a.chars().zip(b.chars()).position(|(x, y)| x != y).unwrap_or(0);
+                        let lo = pos.saturating_sub(60);
+                        rec["mismatch"].as_array_mut().unwrap().push(serde_json::json!({"kind": "different", "text": text,
+                            "got": a.chars().skip(lo).take(160).collect::<String>(), "expected": b.chars().skip(lo).take(160).collect::<String>()}));
+                    }
+                }
+            }
+            if j == 0 {
+                // ill-formed variants
+                let mut variants: Vec<(&str, Vec<String>)> = vec![];
+                if let Some(i) = toks.iter().rposition(|t| t == "}") {
+                    let mut v = toks.clone();
+                    v.remove(i);
+                    variants.push(("unbalanced-brace", v));
+                }
+                if let Some(i) = toks.iter().position(|t| t == ":") {
+                    let mut v = toks.clone();
+                    v.remove(i);
+                    variants.push(("missing-colon", v));
+                }
+                if let Some(i) = toks.iter().position(|t| t == "type" || t == "enum") {
+                    if i + 1 < toks.len() {
+                        let mut v = toks.clone();
+                        v[i + 1] = "fn".to_string();
+                        variants.push(("keyword-as-name", v));
+                    }
+                }
+                if let Some(i) = toks.iter().position(|t| t == "use") {
+                    if let Some(jx) = toks[i..].iter().position(|t| t == ";") {
+                        let mut v = toks.clone();
+                        v.remove(i + jx);
+                        variants.push(("missing-semicolon", v));
+                    }
+                }
+                {
+                    let mut v = toks.clone();
+                    v.push("]".to_string());
+                    variants.push(("stray-bracket", v));
+                }
+                for (name, v) in variants {
+                    let text = gram::join(&v, &mut rng);
+                    let nlines = text.lines().count().max(1);
+                    match std::panic::catch_unwind(|| pyxis::parser::parse_str(&text)) {
+                        Err(_) => rec["panic"].as_array_mut().unwrap().push(serde_json::json!({"variant": name, "text": text})),
+                        Ok(Ok(_)) => rec["illformed_accepted"].as_array_mut().unwrap().push(serde_json::json!({"variant": name, "text": text})),
+                        Ok(Err(e)) => {
+                            let lc = e.span().start();
+                            if lc.line == 0 || lc.line > nlines + 1 {
+                                rec["bad_position"].as_array_mut().unwrap().push(serde_json::json!({"variant": name, "line": lc.line, "lines": nlines}));
+                            }
+                        }
+                    }
+                }
+            }
+        }
+        serde_json::to_writer(&mut out, &rec).unwrap();
+        out.write_all(b"\n").unwrap();
     }
     out.flush().unwrap();
 }
